@@ -229,7 +229,7 @@ mod verif_bounded_strings {
         let gid = res.group.mls_group_id.clone();
         a.merge_pending_commit(&gid).unwrap();
         let mgr = a.media_manager(gid.clone());
-        let names = ["a.txt", "holiday photo 2024.txt", "two  spaces.txt", "tab\tname.txt", "ünï cödé.txt", "x y z", "m image/png"];
+        let names = ["a.txt", "holiday photo 2024.txt", "two  spaces.txt", "tab\tname.txt", "ünï cödé.txt", "x y z", "m image/png", "notes.txt ", " scan 01.pdf", "  padded  ", "UPPER.TXT"];
         let mimes = ["text/plain", "Text/Plain", "text/plain; charset=utf-8"];
         for name in names { for mime in mimes {
             let scen = format!("file name {name:?}, MIME spelling {mime:?}, url with a query part");
